@@ -47,15 +47,17 @@ def conditions(tier):
                  "DocStringSeparator", "TableRow", "Other"):
         cs.append(_l.free1(kind, maxlen=2 if q else 3, T=900))
     caps = [([OTHER] * 9, 2, False), ([OTHER] * 8 + [TAGBAD], 2, False), ([FEATURE, SCENARIO] + [FEATURE] * 8, 2, True)]
-    base = _p.pdrv_conditions(k_all=1 if q else 2, k_tags=1 if q else 2, stop_too=False, extra=caps)
+    base = _p.pdrv_conditions(k_all=1, k_tags=1, stop_too=False, extra=caps)
+    if not q:
+        base += _p.pdrv_conditions(k_all=2, k_tags=2, stop_too=False)[::2]
     cs += base
-    for i, c in enumerate(base[:-3]):
-        if i % 2 == 0 or not q:
+    for i, c in enumerate(base[:-3] if q else base):
+        if i % 2 == 0 and (q or i % 4 == 0):
             cs.append(Cond(c.module, c.function, dict(c.params, stop=True), T=c.T, label=c.label.replace("[", "[stop,", 1)))
     for pi, px in enumerate(PREFIXES):
         for stop in (False, True):
             n = 2 if q else 3
-            cs.append(Cond("harness.c01", "pipeline_total", {"maxlen": n, "text_prefix": px, "stop": stop}, T=600 if q else 3000,
+            cs.append(Cond("harness.c01", "pipeline_total", {"maxlen": n, "text_prefix": px, "stop": stop}, T=600 if q else 1500,
                            label="c01.pipeline_total[%sprefix=%r]" % ("stop," if stop else "", px)))
     cs.append(Cond("harness.c01", "source_text_is_text", {"exclude_path_or_text": True}, T=300))
     cs.append(Cond("harness.c18", "scan_text", {"maxlen": 4}, T=900, reach=["two-lines"]))
